@@ -82,3 +82,40 @@ for _u in family.composite_units():
     elif "composite" in _u.tags:
         _u.props = ["C01", "C02", "C07", "C12"]
     _mk_unit(_u)
+
+
+# ------------------------------------------------------------------ C05: evolution pairs (S1 decodes S2's encoding)
+def _mk_pair(name, s1, m1, s2, m2, project):
+    pid = "gen-py:evolve:" + name
+
+    def run(concrete=None, only=None) -> ProofResult:
+        res = ProofResult(pid=pid, obls=[])
+        try:
+            outs = build.compile_schema(s1, "py")
+            E = EN.Engine(pid, "generated module of %s (older schema) decoding the extended schema's bytes" % s1.fname(),
+                          RENDERER, ["C05"], scope="program")
+            E.concrete = concrete
+
+            def body():
+                genpy.load_runtime()
+                mods = genpy.load_generated(outs, _order(s1))
+                cls = genpy.py_class(mods[s1.fname().replace(".bitproto", "_bp")], m1)
+                genpy.run_decode(E, cls, m1, mods, sender=m2, project=project, label="decode-extended")
+            E.explore(body)
+            res.obls, res.paths = E.obls, E.completed_paths
+            if not E.obls:
+                res.error = "no obligations generated"
+        except EN.Unsupported as e:
+            res.error = "unsupported construct: %s" % (e,)
+        except Exception as e:
+            res.error = "engine exception: %r\n%s" % (e, traceback.format_exc(limit=12))
+        return res
+
+    p = ProofDef(pid=pid, func="generated Python module (older schema)", file=RENDERER, props=["C05"], run=run,
+                 scope="program", doc="decode of the newer schema's reference encoding yields every older-schema field")
+    p.tier = "quick"
+    register(p)
+
+
+for _pair in family.evolution_pairs():
+    _mk_pair(*_pair)
